@@ -17,7 +17,13 @@ import (
 
 func init() { hx.Register("C02", Run) }
 
-var setters = []string{"subject", "gen", "org", "ua", "msgid", "fname", "ename", "fdesc", "edesc", "pdesc", "cid", "acid", "dispname"}
+var setters = []string{"subject", "gen", "org", "ua", "msgid", "fname", "ename", "fdesc", "edesc", "pdesc", "cid", "acid", "dispname",
+	// the setters that take the display name as an argument of its own and do the formatting themselves
+	"fromfmt", "tofmt", "ccfmt", "replyfmt", "mdnfmt"}
+
+// the header field and the address a *Format setter's display name ends up with
+var fmtField = map[string][2]string{"fromfmt": {"From", "fmt@x.test"}, "tofmt": {"To", "fmt@x.test"}, "ccfmt": {"Cc", "fmt@x.test"},
+	"replyfmt": {"Reply-To", "fmt@x.test"}, "mdnfmt": {"Disposition-Notification-To", "fmt@x.test"}, "dispname": {"From", "from@x.test"}}
 
 // build the message for a (setter, value) pair; wordB selects the B word encoder
 func build(setter string, val string, wordB bool) (*gomail.Msg, *bytex.MsgSpec, error) {
@@ -62,6 +68,22 @@ func build(setter string, val string, wordB bool) (*gomail.Msg, *bytex.MsgSpec, 
 	}
 	bytex.ResetRand()
 	m, err := s.Build()
+	if err != nil {
+		return m, s, err
+	}
+	switch setter {
+	case "fromfmt":
+		err = m.FromFormat(val, fmtField[setter][1])
+	case "tofmt":
+		err = m.AddToFormat(val, fmtField[setter][1])
+	case "ccfmt":
+		err = m.AddCcFormat(val, fmtField[setter][1])
+	case "replyfmt":
+		err = m.ReplyToFormat(val, fmtField[setter][1])
+	case "mdnfmt":
+		err = m.RequestMDNAddToFormat(val, fmtField[setter][1])
+		s.Gen = append(s.Gen, bytex.KV{K: "Disposition-Notification-To"}) // for Describe: read the stored value back
+	}
 	return m, s, err
 }
 
@@ -173,7 +195,8 @@ func sanitizeName(s string) string {
 }
 
 var topAllowed = map[string]bool{"Date": true, "Message-ID": true, "MIME-Version": true, "User-Agent": true, "X-Mailer": true,
-	"Subject": true, "X-Custom-Header": true, "Organization": true, "From": true, "To": true, "Content-Type": true}
+	"Subject": true, "X-Custom-Header": true, "Organization": true, "From": true, "To": true, "Content-Type": true,
+	"Cc": true, "Reply-To": true, "Disposition-Notification-To": true}
 var partAllowed = map[string]bool{"Content-Type": true, "Content-Transfer-Encoding": true, "Content-Description": true,
 	"Content-Disposition": true, "Content-Id": true}
 
@@ -252,6 +275,23 @@ func runCase(r *hx.Run, c hx.Case) {
 			case si > 0 && n == "Content-Description" && (setter == "fdesc" || setter == "edesc" || setter == "pdesc"):
 				want, check = val, true
 			}
+			if ff, ok := fmtField[setter]; ok && si == 0 && n == ff[0] && utf8.ValidString(val) {
+				// the display name, read by the standard library's address parser (not go-mail's code), is the string
+				// that was set (a name of blanks only is no name at all)
+				l, perr := mail.ParseAddressList(values[i])
+				found := false
+				for _, a := range l {
+					if a.Address == ff[1] {
+						found = true
+						if wsNorm(a.Name) != wsNorm(val) {
+							r.Fail(c.ID, "value-"+setter+"-not-preserved", fmt.Sprintf("%s: %s carries the display name %q, set was %q", where, n, a.Name, val))
+						}
+					}
+				}
+				if perr != nil || !found {
+					r.Fail(c.ID, "value-"+setter+"-not-preserved", fmt.Sprintf("%s: %s = %q does not carry the address %s (parse error %v)", where, n, values[i], ff[1], perr))
+				}
+			}
 			if check && utf8.ValidString(val) {
 				got, derr := dec.DecodeHeader(values[i])
 				if derr != nil || wsNorm(got) != wsNorm(want) {
@@ -287,6 +327,7 @@ func values(r *hx.Run, thorough bool) [][]byte {
 	fixed := []string{"", "x\r\nX-Injected: 1", "x\nX-Injected: 1", "x\rX-Injected: 1", "x\r\n\r\nbody", "a\x00b", "=?utf-8?q?a?=",
 		"na\xc3\xafve r\xc3\xa9sum\xc3\xa9", "\xff\xfe invalid utf8", "tab\there", "  leading and trailing  ", "a;b=c\"d\\e", "quote\"inside",
 		strings.Repeat("w", 80), strings.Repeat("long word ", 30), strings.Repeat("\xc3\xa4", 70), strings.Repeat("\xe2\x82\xac", 40),
+		"C:\\dir\\file", "a\\b", "back\\\\slash", "(comment) name", "name (comment)", "a, b", "<angle>", "semi;colon", "at@sign", "dot.ted name",
 		"c\r\nX: 2", "<id@host>", "caf\xc3\xa9 \r\n folded", "\r\n", "\r", "\n", "a\r\n b",
 		// long runs of blanks: whitespace-only continuation lines must not turn into empty lines
 		"Hello" + strings.Repeat(" ", 74) + "world", "Hello" + strings.Repeat(" ", 75) + "world", "Hello" + strings.Repeat(" ", 76) + "world",
